@@ -147,3 +147,20 @@ package set
 //@   ensures {C16} card: len(params.Command) == 2 && onset(params, tkey(params)) ==> result1 == nil && bstr(result0) == ":" ++ (itoa(old(len(asset(tval(params, tkey(params))).members))) ++ "\r\n")
 //@   ensures {C13,C16} pure: tpure(params)
 //@   ensures {C13,C16} content: tsame(params, tkey(params))
+
+// SMOVE source destination member
+//@ spec tsrc(params internal.HandlerFuncParams) string = old(params.Command[1])
+//@ spec tdst(params internal.HandlerFuncParams) string = old(params.Command[2])
+//@ spec tmembers(params internal.HandlerFuncParams, k string) map[string]interface{} = asset(tval(params, k)).members
+
+//@ func handleSMOVE props C16,C12
+//@   requires generic.henv(params)
+//@   assumes own-cmd: len(params.Command) >= 3 ==> disjointarr(params.Command, $srv.keysWithExpiry.keys[dbof(params.Context)])
+//@   assumes stored-wf: len(params.Command) >= 3 ==> (isset(tval(params, tsrc(params))) ==> twf(asset(tval(params, tsrc(params))))) && (isset(tval(params, tdst(params))) ==> twf(asset(tval(params, tdst(params))))) && (isset(tval(params, tsrc(params))) && isset(tval(params, tdst(params))) && asset(tval(params, tsrc(params))) != asset(tval(params, tdst(params))) ==> asset(tval(params, tsrc(params))).members != asset(tval(params, tdst(params))).members)
+//@   ensures {C16} arity: len(params.Command) != 4 ==> result1 != nil
+//@   ensures {C16} nosource: len(params.Command) == 4 && !old(tlive(params, tsrc(params))) ==> result1 == nil && bstr(result0) == ":0\r\n" && tpure(params)
+//@   ensures {C16} wrongtype: len(params.Command) == 4 && old(tlive(params, tsrc(params))) && (!old(isset(tval(params, tsrc(params)))) || !old(tlive(params, tdst(params))) || !old(isset(tval(params, tdst(params))))) ==> result1 != nil
+//@   ensures {C16} notmember: len(params.Command) == 4 && onset(params, tsrc(params)) && onset(params, tdst(params)) && !old(has(tmembers(params, tsrc(params)), params.Command[3])) ==> result1 == nil && bstr(result0) == ":" ++ (itoa(0) ++ "\r\n") && (forall x string :: (has(tmembers(params, tsrc(params)), x) <==> old(has(tmembers(params, tsrc(params)), x))) && (has(tmembers(params, tdst(params)), x) <==> old(has(tmembers(params, tdst(params)), x))))
+//@   ensures {C16} moved: len(params.Command) == 4 && onset(params, tsrc(params)) && onset(params, tdst(params)) && old(has(tmembers(params, tsrc(params)), params.Command[3])) ==> result1 == nil && bstr(result0) == ":" ++ (itoa(1) ++ "\r\n") && has(tmembers(params, tdst(params)), old(params.Command[3])) && (old(asset(tval(params, tsrc(params))) != asset(tval(params, tdst(params)))) ==> !has(tmembers(params, tsrc(params)), old(params.Command[3])))
+//@   ensures {C16} rest: len(params.Command) == 4 && onset(params, tsrc(params)) && onset(params, tdst(params)) ==> (forall x string :: x != old(params.Command[3]) ==> (has(tmembers(params, tsrc(params)), x) <==> old(has(tmembers(params, tsrc(params)), x))) && (has(tmembers(params, tdst(params)), x) <==> old(has(tmembers(params, tdst(params)), x))))
+//@   ensures {C16,C20} keys: tpure(params)
